@@ -327,6 +327,11 @@ static ContentOp gen_op(Chooser& c, const gen::Pools& pools, const gen::TimeCtx&
   else o.f = gen::gen_mm(c, pools, tc, g_observe_tps, ro);
   return o;
 }
+static std::string tables_dump(const cdnsref::BlockTables& bt) {
+  std::string o = "TABLES\n";
+  for (int t = 0; t < cdnsref::T_COUNT; t++) { o += std::string(cdnsref::TABLE_NAME[t]) + ":"; for (auto& e : bt.t[t].canon) o += M::hexs(e) + "|"; o += "\n"; }
+  return o;
+}
 // canonical observation of a block: serialised through the encoder, parsed independently
 static std::string observe(CdnsBlock& b, const std::string& scratch) {
   std::string fn = scratch + "/c19blk";
@@ -342,9 +347,15 @@ static std::string observe(CdnsBlock& b, const std::string& scratch) {
   M::BlockM bm; cdnsref::BlockTables bt;
   ip.block(n, pre, bm, bt);
   std::string o = M::dump_block(bm, true);
-  for (int t = 0; t < cdnsref::T_COUNT; t++) { o += std::string(cdnsref::TABLE_NAME[t]) + ":"; for (auto& e : bt.t[t].canon) o += M::hexs(e) + "|"; o += "\n"; }
+  o += tables_dump(bt);
   for (auto& e : rep.errors) o += "ERR " + e + "\n";
   return o;
+}
+// the table part of observe() alone
+static std::string observe_tables(CdnsBlock& b, const std::string& scratch) {
+  std::string o = observe(b, scratch);
+  size_t p = o.find("TABLES\n");
+  return p == std::string::npos ? o : o.substr(p);
 }
 static std::string observe_gets(CdnsBlock& b) {
   std::string o;
@@ -458,7 +469,14 @@ static void c19_value(Case& cs) {
   if (via_reader) {
     std::string bytes; read_file(cs.scratch + "/c19file", bytes);
     M::FileM fm; cdnsref::Report rep;
-    if (cdnsref::interpret(bytes, fm, rep) && rep.ok() && !fm.blocks.empty()) file_dump = M::dump_block(fm.blocks[0]);
+    if (cdnsref::interpret(bytes, fm, rep) && rep.ok() && !fm.blocks.empty()) {
+      file_dump = M::dump_block(fm.blocks[0]);
+      // complete copy: every table of the second block holds exactly the entries of the file's block, in the same order
+      if (!rep.tables.empty()) {
+        std::string want = tables_dump(rep.tables[0]), got = observe_tables(*copy, cs.scratch);
+        VF_CHECK(want == got, "sig=c19.tables_differ_from_file the tables of the block obtained from the reader (and then copied) differ from the tables in the file : " << desc << "\n--- file\n" << want.substr(0, 1200) << "--- block\n" << got.substr(0, 1200));
+      }
+    }
   }
   std::string copy_obs0 = observe(*copy, cs.scratch);
   VF_CHECK(copy_obs0 == src_obs_before, "sig=c19.copy_incomplete the second block does not hold the source's content : " << desc << "\n--- source\n" << src_obs_before.substr(0, 1200) << "--- copy\n" << copy_obs0.substr(0, 1200));
